@@ -1258,3 +1258,37 @@ def gen_move_smaller_block(L, K, rng):
     g.lines.append("observe 0")
     g.stat("moveassign-more-capacity-smaller-block")
     return g.finish(), g.stats
+
+
+def gen_move_elementwise(L, K, rng):
+    """element-wise move assignment (unequal, non-propagating, not always-equal allocators)
+    into a NON-EMPTY target, with the source's data fitting the target's block (block reused)
+    or not (new block): the old elements must be destroyed before the incoming ones are
+    constructed on their storage"""
+    g = ScriptGen(L, K, rng)
+    fixed = [rng.choice([0, 1, 2, 3]) for _ in range(nfixed(L))]
+    fixed2 = fixed if rng.random() < 0.7 else [rng.choice([0, 1, 2, 3]) for _ in range(nfixed(L))]
+    g.op_mkvec(0, cap=rng.choice([2, 3, 4, 6]), fixed=fixed, aid=1)
+    g.op_mkvec(1, cap=rng.choice([1, 2, 3, 4]), fixed=fixed2, aid=2)
+    for _ in range(rng.randrange(1, 5)):
+        if not g.op_emplace(0):
+            g.op_reserve(0, True)
+    for _ in range(rng.randrange(0, 4)):
+        g.op_emplace(1)
+    dv, sv = g.slots[0], g.slots[1]
+    if sv.null:
+        return None
+    nv = sv.clone()
+    nv.aid = dv.aid
+    reuse = (not dv.null) and dv.block >= sv.block
+    if reuse:
+        nv.block = dv.block
+    nv.null = False
+    g.slots[0] = nv
+    g.moved = [False, "elems" if not all_triv(L) else False, False, False]
+    g.lines.append("moveassign 0 1")
+    g.lines.append("observe 0")
+    g.stat("moveassign-elementwise-nonempty-target-" + ("reuse" if reuse else "newblock") + ("" if dv.elems else "(empty)"))
+    if rng.random() < 0.5:
+        g.op_emplace(0)
+    return g.finish(), g.stats
